@@ -456,7 +456,7 @@ class AsyncServer(base_server.BaseServer):
             'upgrades': self._upgrades(sid, transport),
             'pingTimeout': int(self.ping_timeout * 1000),
             'pingInterval': int(
-                self.ping_interval + self.ping_interval_grace_period) * 1000,
+                (self.ping_interval + self.ping_interval_grace_period) * 1000),
             'maxPayload': self.max_http_buffer_size,
         })
         await s.send(pkt)
